@@ -157,6 +157,13 @@ func ExecR4(c R4Case) (res core.Result) {
 		res.Classes = []string{"abandoned:panic"}
 		return
 	}
+	return verifyReply4(dgram, sent, c.Chain)
+}
+
+// verifyReply4 is the C11 oracle for one datagram and what the server sent for it.
+// cannotDrop: the chain cannot drop a request; nakChain: the chain turns REQUESTs into NAKs
+func verifyReply4(dgram []byte, sent []server.Sent, chain string) (res core.Result) {
+	c := R4Case{Chain: chain}
 	// reference classification (library parse = definition of "unparseable")
 	req, perr := dhcpv4.FromBytes(dgram)
 	class := ""
